@@ -37,8 +37,8 @@ type ZInner struct {
 	W string
 }
 
-func ZPtr(e *E) *E      { return &E{K: "ptr", A: []*E{e}} }
-func ZTime(u int64) *E  { return &E{K: "time", I: u} }
+func ZPtr(e *E) *E         { return &E{K: "ptr", A: []*E{e}} }
+func ZTime(u int64) *E     { return &E{K: "time", I: u} }
 func ZT(e *E, m string) *E { cp := *e; cp.M = m; return &cp }
 
 // zooGo materialises a description. variant changes insertion order of maps (0 as listed,
